@@ -16,18 +16,18 @@ package hotkey
 //@ func (*sortedHotKeys).Insert
 //@   prop C19
 //@   requires s != nil && key.Counter != nil
-//@   requires @counters-non-nil forall j int :: 0 <= j && j < len(s.data) ==> s.data[j].Counter != nil
-//@   requires @sorted forall a int, b int :: 0 <= a && a < b && b < len(s.data) ==> s.data[a].Counter.val >= s.data[b].Counter.val
-//@   requires @within-capacity len(s.data) <= int(s.capacity)
+//@   requires @report-well-formed nonnilkeys(s.data) && sortedkeys(s.data) && distinctkeys(s.data) && distinctcounters(s.data) && len(s.data) <= int(s.capacity)
+//@   requires @new-name-new-counter forall j int :: 0 <= j && j < len(s.data) ==> s.data[j].Name != key.Name && s.data[j].Counter != key.Counter
 //@   modifies s.data, s.data[0:cap(s.data)]
-//@   ensures @counters-non-nil forall j int :: 0 <= j && j < len(s.data) ==> s.data[j].Counter != nil
-//@   ensures @sorted forall a int, b int :: 0 <= a && a < b && b < len(s.data) ==> s.data[a].Counter.val >= s.data[b].Counter.val
+//@   ensures @inserted-at-its-rank exists p int :: 0 <= p && p <= old(len(s.data)) && result == (p < len(s.data)) && (forall j int :: 0 <= j && j < p && j < len(s.data) ==> s.data[j].Name == old(s.data[j].Name) && s.data[j].Counter == old(s.data[j].Counter)) && (forall j int :: p < j && j < len(s.data) ==> s.data[j].Name == old(s.data[j-1].Name) && s.data[j].Counter == old(s.data[j-1].Counter)) && (result ==> s.data[p].Name == key.Name && s.data[p].Counter == key.Counter)
+//@   witness @inserted-at-its-rank p = i
+//@   ensures @counters-present nonnilkeys(s.data)
+//@   ensures @descending-heat sortedkeys(s.data)
+//@   ensures @no-key-twice distinctkeys(s.data) && distinctcounters(s.data)
 //@   ensures @within-capacity len(s.data) <= int(s.capacity)
+//@   ensures @same-array-or-a-new-one base(s.data) == old(base(s.data)) || fresh(s.data)
 //@   ensures @grows-by-one-until-full len(s.data) == old(len(s.data)) + ite(old(len(s.data)) < int(s.capacity), 1, 0)
-//@   ensures @prefix-kept forall j int :: 0 <= j && j < i && j < len(s.data) ==> s.data[j].Name == old(s.data[j].Name) && s.data[j].Counter == old(s.data[j].Counter)
-//@   ensures @suffix-shifted forall j int :: i < j && j < len(s.data) ==> s.data[j].Name == old(s.data[j-1].Name) && s.data[j].Counter == old(s.data[j-1].Counter)
-//@   ensures @inserted-at-its-rank result == (i < len(s.data)) && (result ==> s.data[i].Name == key.Name && s.data[i].Counter == key.Counter)
-//@   ensures @rank-in-range 0 <= i && i <= old(len(s.data))
+//@   ensures @only-the-new-key-is-new forall j int :: 0 <= j && j < len(s.data) ==> (s.data[j].Name == key.Name && s.data[j].Counter == key.Counter) || (exists k int :: 0 <= k && k < old(len(s.data)) && s.data[j].Name == old(s.data[k].Name) && s.data[j].Counter == old(s.data[k].Counter))
 
 // ---- C19: the logarithmic heat counter -----------------------------------------------------------------
 
@@ -68,3 +68,56 @@ package hotkey
 //@   requires 0 <= i && i < len(deref(keys)) && 0 <= j && j < len(deref(keys)) && deref(keys)[i].Counter != nil && deref(keys)[j].Counter != nil
 //@   modifies nothing
 //@   ensures result == (deref(keys)[i].Counter.val > deref(keys)[j].Counter.val)
+
+//@ func newSortedHotKeys
+//@   prop C19
+//@   modifies nothing
+//@   ensures result != nil && fresh(result) && result.capacity == capacity && len(result.data) == 0 && fresh(result.data)
+
+//@ func (*sortedHotKeys).Data
+//@   prop C19
+//@   requires s != nil
+//@   modifies nothing
+//@   ensures sameslice(result, s.data)
+
+//@ func (*Collector).collect
+//@   prop C19
+//@   flag forward-frames
+//@   requires c != nil
+//@   requires @report-well-formed reportwf(c.keys) && len(c.keys) <= int(c.capacity)
+//@   requires @counters-registered forall n string :: has(c.counters, n) ==> c.counters[n] != nil
+//@   modifies all, latchedkeys
+//@   ensures @report-well-formed reportwf(c.keys) && len(c.keys) <= int(c.capacity)
+//@   ensures @only-reported-or-latched-keys forall j int :: 0 <= j && j < len(c.keys) ==> old(inreport(c.keys, now(c.keys[j].Name))) || has(latchedkeys, c.keys[j].Name)
+//@   loop 0 invariant forall k string :: has(accessedKeyNames, k) ==> has(latchedkeys, k)
+//@   loop 0 invariant forall n string :: has(c.counters, n) ==> c.counters[n] != nil
+//@   loop 1 invariant forall k string :: has(accessedKeyNames, k) ==> has(latchedkeys, k)
+//@   loop 1 invariant forall n string :: has(c.counters, n) ==> c.counters[n] != nil
+//@   loop 2 invariant forall k string :: has(accessedKeyNames, k) ==> has(latchedkeys, k)
+//@   loop 2 invariant @report-untouched sameslice(c.keys, old(c.keys)) && forall i int :: 0 <= i && i < len(c.keys) ==> c.keys[i].Name == old(c.keys[i].Name)
+//@   loop 2 invariant nonnilkeys(c.keys) && distinctkeys(c.keys) && distinctcounters(c.keys)
+//@   loop 2 invariant forall n string :: has(curHotKeys, n) ==> curHotKeys[n] != nil && inreport(c.keys, n)
+//@   loop 2 invariant @injective (forall n string, m string :: has(curHotKeys, n) && has(curHotKeys, m) && n != m ==> curHotKeys[n] != curHotKeys[m]) && (forall n string, j int :: has(curHotKeys, n) && rangeindex < j && j < len(c.keys) ==> curHotKeys[n] != c.keys[j].Counter)
+//@   loop 3 invariant forall k string :: has(accessedKeyNames, k) ==> has(latchedkeys, k)
+//@   loop 3 invariant @report-untouched sameslice(c.keys, old(c.keys)) && forall i int :: 0 <= i && i < len(c.keys) ==> c.keys[i].Name == old(c.keys[i].Name)
+//@   loop 3 invariant forall n string :: has(curHotKeys, n) ==> curHotKeys[n] != nil && inreport(c.keys, n)
+//@   loop 3 invariant forall n string, m string :: has(curHotKeys, n) && has(curHotKeys, m) && n != m ==> curHotKeys[n] != curHotKeys[m]
+//@   loop 3 invariant res != nil && res.capacity == c.capacity && fresh(res.data) && reportwf(res.data) && len(res.data) <= int(res.capacity)
+//@   loop 3 invariant forall j int :: 0 <= j && j < len(res.data) ==> has(visited2, res.data[j].Name) && has(curHotKeys, res.data[j].Name)
+//@   loop 3 invariant forall j int, n string :: 0 <= j && j < len(res.data) && has(curHotKeys, n) && !has(visited2, n) ==> res.data[j].Counter != curHotKeys[n]
+//@   loop 3 invariant forall n string :: has(visited2, n) ==> !has(accessedKeyNames, n)
+//@   loop 4 invariant forall k string :: has(accessedKeyNames, k) ==> has(latchedkeys, k)
+//@   loop 4 invariant @report-untouched sameslice(c.keys, old(c.keys)) && forall i int :: 0 <= i && i < len(c.keys) ==> c.keys[i].Name == old(c.keys[i].Name)
+//@   loop 4 invariant forall n string :: has(curHotKeys, n) ==> inreport(c.keys, n) && !has(accessedKeyNames, n)
+//@   loop 4 invariant res != nil && res.capacity == c.capacity && fresh(res.data) && reportwf(res.data) && len(res.data) <= int(res.capacity)
+//@   loop 4 invariant forall j int :: 0 <= j && j < len(res.data) ==> has(visited3, res.data[j].Name) || has(curHotKeys, res.data[j].Name)
+//@   loop 4 invariant forall j int :: 0 <= j && j < len(res.data) && has(visited3, res.data[j].Name) ==> has(latchedkeys, res.data[j].Name)
+
+// ---- C19: the per-backend key counter -------------------------------------------------------------------
+
+//@ func (*Counter).Latch
+//@   prop C19
+//@   requires c != nil
+//@   modifies c.items, c.freqHead, latchedkeys
+//@   ghostdef forall k string :: has(latchedkeys, k) == (old(has(latchedkeys, k)) || old(has(c.items, k)))
+//@   ensures @reports-the-tracked-keys result != nil && forall k string :: has(result, k) ==> old(has(c.items, k))
